@@ -12,16 +12,17 @@ if args and args[0] == '--show':
     args = args[1:]
 tab = census.load_table() if os.path.exists(census.TABLE) else {}
 for name in args:
-    flags = name[:len(name) - len(name.lstrip('+~'))]
-    name = name.lstrip('+~')
+    flags = name[:len(name) - len(name.lstrip('+~!'))]
+    name = name.lstrip('+~!')
     sinks = None
     if '@' in name:
         name, sinks = name.split('@', 1)
     old = tab.get(name, {})
     eff = bool(old.get('effects')) or '+' in flags
     clo = bool(old.get('closures')) or '~' in flags
+    gua = bool(old.get('guarded')) or '!' in flags
     sinks = sinks or old.get('sinks')
-    ex, inl = census.compute(P, name, tuple(old.get('opaque', ())), eff, sinks, clo)
+    ex, inl = census.compute(P, name, tuple(old.get('opaque', ())), eff, sinks, clo, gua)
     if show:
         print('==', name, ' inlined:', sorted(set(inl)))
         for e in ex:
@@ -30,9 +31,9 @@ for name in args:
             for a in e['full']:
                 print('         ', a[:400])
         continue
-    ent = {'effects': eff, 'sinks': sinks, 'closures': clo, 'note': old.get('note', 'TODO review'), 'opaque': old.get('opaque', []), 'inlined': sorted(set(inl)),
+    ent = {'effects': eff, 'sinks': sinks, 'closures': clo, 'guarded': gua, 'note': old.get('note', 'TODO review'), 'opaque': old.get('opaque', []), 'inlined': sorted(set(inl)),
            'exits': [{k: e[k] for k in ('cls', 'label', 'trigger', 'atoms', 'full')} for e in ex]}
-    ent['floor'] = len([e for e in ex if e['cls'] in ('reject', 'exact')]) + len([e for e in ex if e['cls'] == 'accept'])
+    ent['floor'] = len(ex)
     tab[name] = ent
     print('generated', name, len(ex), 'exits; inlined', len(set(inl)))
 if not show:
